@@ -52,9 +52,20 @@ class QueueFamily(common.Family):
     modes = []
     for _ in range(C):
       modes.append(rng.choice(MODES))
+    items = [rng.randrange(0, 7) for _ in range(P)]
+    shares = None
+    if C > 1 and sum(items) >= C and rng.random() < 0.2:
+      # consumers that take a fixed share one element at a time and leave
+      # (nobody stays to see the end of the stream)
+      total, shares = sum(items), []
+      for c in range(C - 1):
+        shares.append(rng.randrange(1, total - sum(shares) - (C - 1 - c) + 1))
+      shares.append(total - sum(shares))
+      modes = ['get_k'] * C
     return {
         'P': P,
-        'items': [rng.randrange(0, 7) for _ in range(P)],
+        'items': items,
+        'shares': shares,
         'rets': [rng.random() < 0.6 for _ in range(P)],
         'C': C,
         'modes': modes,
@@ -102,6 +113,11 @@ class QueueFamily(common.Family):
           it = iter(q)
           while True:
             got[c].append(next(it))
+        if mode == 'get_k':
+          for _ in range(cfg['shares'][c]):
+            got[c].append(q.get())
+          ends[c] = ['left', len(got[c])]
+          return
         while True:
           if mode == 'get':
             got[c].append(q.get())
@@ -176,6 +192,11 @@ class QueueFamily(common.Family):
     exp_ret = common.multiset(expected_returns(cfg))
     for c, end in enumerate(obs['ends']):
       mode = cfg['modes'][c]
+      if mode == 'get_k':
+        if end != ['left', cfg['shares'][c]]:
+          res.append(v('exactly-once', 'share-not-received:get_k',
+                       f"consumer {c} wanted {cfg['shares'][c]} elements: {end}"))
+        continue
       if end is None or end[0] != 'stop':
         res.append(v('end-of-stream', f'not-stop:{mode}', f'consumer {c}: {end}'))
       elif common.multiset(tuple(x) if isinstance(x, list) else x
@@ -195,6 +216,8 @@ class QueueFamily(common.Family):
       c = copy.deepcopy(cfg); c['sim']['fine'] = False; yield c
     if cfg['pool']:
       c = copy.deepcopy(cfg); c['pool'] = False; yield c
+    if cfg.get('shares'):
+      return
     if cfg['C'] > 1:
       for drop in range(cfg['C']):
         c = copy.deepcopy(cfg)
